@@ -4,4 +4,5 @@ pub mod mapq;
 pub mod oracle;
 pub mod scripts;
 pub mod store;
+pub mod uplinks;
 pub mod world;
